@@ -67,7 +67,7 @@ func vpC16Single(tname string) {
 	ti := vpTypeIndex(tname)
 	positions := vpC16Positions(tname)
 	pos := positions[vpChoice(len(positions))]
-	shape := []int{0, 1, 2, 3, 4, 6, 10, 17, 18}[vpChoice(9)]
+	shape := []int{0, 1, 2, 3, 4, 6, 10, 17, 18, 5, 7}[vpChoice(11)]
 	x := vpNew(ti)
 	vpSetField(x, 0, 0, 'i')
 	if vpBool() {
@@ -94,6 +94,13 @@ func vpC16Single(tname string) {
 		vpAssert("iri-unchanged/"+cell, got != nil && IsIRI(got) && got.GetLink() == orig.GetLink())
 	case 3, 10, 17, 18:
 		vpAssert("link-unchanged/"+cell, got == orig)
+	case 5:
+		// a list of plain IRIs in a single-item position holds nothing to replace: it stays a list of those IRIs
+		vpAssert("iri-list-unchanged/"+cell, vpEqItem(got, orig))
+	case 7:
+		// ... a one-member list may come back as its member (the documented normal form of single-item properties)
+		ol, _ := orig.(ItemCollection)
+		vpAssert("one-iri-list-unchanged-or-its-member/"+cell, vpEqItem(got, orig) || (len(ol) == 1 && vpEqItem(got, ol[0])))
 	case 2:
 		vpAssert("idless-object-unchanged/"+cell, got == orig)
 	}
